@@ -427,7 +427,12 @@ type ctx struct {
 	r    *common.Run
 	an   *analysis
 	repo string
+	// stalls per helper name ("" = serve): after a few, further cases of that kind are
+	// skipped so that a systematic wedge is reported in seconds, not after the timeout
+	stalls map[string]int
 }
+
+const maxStalls = 4
 
 // record writes one fuzz case as a protocol line (the model's prediction is the theorem:
 // "ok" for every input), counts it, and turns a panic / stall into an oracle failure plus a
@@ -488,19 +493,31 @@ func (an *analysis) locate(file string, line int) (*funcSkel, int) {
 }
 
 func (c *ctx) serve(input string, class string) {
+	if c.stalls[""] >= maxStalls {
+		return
+	}
 	t0 := time.Now()
 	o := serveCase([]byte(input))
 	if d := time.Since(t0); d > 200*time.Millisecond && os.Getenv("C09_DEBUG") != "" {
 		fmt.Fprintf(os.Stderr, "slow serve %v %s %s: %s\n", d, class, o.obs(), input)
 	}
+	if o.stalled {
+		c.stalls[""]++
+	}
 	c.record("serve "+common.HexS(input), o, class)
 }
 
 func (c *ctx) helper(h *helper, typ, reply, class string) {
+	if c.stalls[h.name] >= maxStalls {
+		return
+	}
 	t0 := time.Now()
 	o := helperCase(h, typ, []byte(reply))
 	if d := time.Since(t0); d > 200*time.Millisecond && os.Getenv("C09_DEBUG") != "" {
 		fmt.Fprintf(os.Stderr, "slow helper %v %s %s %s %s: %s\n", d, class, o.obs(), h.name, typ, reply)
+	}
+	if o.stalled {
+		c.stalls[h.name]++
 	}
 	c.record("helper "+common.HexS(h.name)+" "+typ+" "+common.HexS(reply), o, class)
 }
